@@ -80,7 +80,14 @@ Alphabet == <<
   [sym |-> "nbspcmd",  class |-> "cmd"],        \* :doc<U+00A0>f
   [sym |-> "unicmd",   class |-> "cmd"],        \* :<U+00E9>t<U+00E9> x
   [sym |-> "widecmd",  class |-> "cmd"],        \* :type<U+3000>x
-  [sym |-> "nbspsrc",  class |-> "source"]      \* 1<U+00A0>+ 1
+  [sym |-> "nbspsrc",  class |-> "source"],     \* 1<U+00A0>+ 1
+  \* `load` requests and client-supplied byte ranges that do not fit the text they come with
+  [sym |-> "loadreq",  class |-> "source"],     \* load: fun g2() { 1 } with its exact range
+  [sym |-> "loadfar",  class |-> "source"],     \* load with end_offset beyond the text
+  [sym |-> "loadinv",  class |-> "source"],     \* load with offset > end_offset
+  [sym |-> "runspan",  class |-> "source"],     \* run with path and a range beyond the text
+  [sym |-> "runmid",   class |-> "source"],     \* run with a range that starts inside a multi-byte character
+  [sym |-> "evalfar",  class |-> "evalupto"]    \* eval_up_to with an offset beyond the text
 >>
 
 \* admissible answer kinds per request class (independent of the state:
